@@ -547,8 +547,7 @@ def _node_representer(dumper, node):
             False: '!notnew'
         },
         'safe': {
-            True: '!safe',
-            False: '!unsafe'
+            False: '!unsafe'    # there is no `!safe` constructor: an explicit safe=True stays in the encoded form
         }
     }
 
@@ -592,7 +591,7 @@ def _node_representer(dumper, node):
         # in "tags_to_infer")
         key = next(iter(metadata.keys()))
         maybe_tag = tags_to_infer.get(key)
-        if maybe_tag:
+        if maybe_tag and metadata[key] in maybe_tag:
             tag = maybe_tag[metadata[key]]
             del metadata[key]
 
